@@ -147,6 +147,52 @@ func buildPlainRef(m *Model) *pgraph {
 	return g
 }
 
+// manyCycles reports whether the graph has more than limit elementary cycles
+// (bounded enumeration: the library's GetCycles enumerates them all, which is
+// exponential in their number - C08's subject, not C17's).
+func (g *pgraph) manyCycles(limit int) bool {
+	names := make([]string, 0, len(g.nodes))
+	for n := range g.nodes {
+		names = append(names, n)
+	}
+	sort.Strings(names)
+	idx := map[string]int{}
+	for i, n := range names {
+		idx[n] = i
+	}
+	count := 0
+	steps := 0
+	var dfs func(start, v int, on []bool) bool
+	dfs = func(start, v int, on []bool) bool {
+		on[v] = true
+		for _, y := range g.adj[names[v]] {
+			steps++
+			if steps > 200*limit {
+				return true
+			}
+			w := idx[y]
+			if w == start {
+				count++
+				if count > limit {
+					return true
+				}
+			} else if w > start && !on[w] {
+				if dfs(start, w, on) {
+					return true
+				}
+			}
+		}
+		on[v] = false
+		return false
+	}
+	for s := range names {
+		if dfs(s, s, make([]bool, len(names))) {
+			return true
+		}
+	}
+	return false
+}
+
 func (g *pgraph) reach(from string) map[string]bool {
 	seen := map[string]bool{from: true}
 	stack := []string{from}
@@ -168,11 +214,25 @@ func (g *pgraph) reach(from string) map[string]bool {
 // cycle at all (self loops included).
 func (g *pgraph) cycles() (computedCycle, acyclic bool) {
 	acyclic = true
-	for n := range g.nodes {
+	color := map[string]int{}
+	var dfs func(n string) bool
+	dfs = func(n string) bool {
+		color[n] = 1
 		for _, y := range g.adj[n] {
-			if g.reach(y)[n] {
-				acyclic = false
+			if color[y] == 1 {
+				return true
 			}
+			if color[y] == 0 && dfs(y) {
+				return true
+			}
+		}
+		color[n] = 2
+		return false
+	}
+	for n := range g.nodes {
+		if color[n] == 0 && dfs(n) {
+			acyclic = false
+			break
 		}
 	}
 	cadj := map[string][]string{}
@@ -228,7 +288,7 @@ func lineKey(from, to string, e *graph.AuthorizationModelEdge) string {
 	return fmt.Sprintf("%s -> %s kind=%s ts=%s", from, to, ekMap[e.EdgeType()], e.TuplesetRelation())
 }
 
-func observePlain(pm *openfgav1.AuthorizationModel, labels []string) (o plainObs) {
+func observePlain(pm *openfgav1.AuthorizationModel, labels []string, withCycles bool) (o plainObs) {
 	before := proto.Clone(pm)
 	defer func() {
 		if r := recover(); r != nil {
@@ -424,7 +484,7 @@ func observePlain(pm *openfgav1.AuthorizationModel, labels []string) (o plainObs
 	}
 	// cycle enumeration is exponential in the number of cycles (C08's subject,
 	// not C17's): only on graphs of moderate size
-	if g.Nodes().Len() <= 40 {
+	if withCycles && g.Nodes().Len() <= 40 {
 		o.cycles = cycleFlags(g.GetCycles())
 		o.revCyc = cycleFlags(rev.GetCycles())
 		o.rev2Cyc = cycleFlags(rev2.GetCycles())
@@ -467,11 +527,14 @@ func cycleFlags(ci any) string {
 // ---------------------------------------------------------------------------
 
 type plainCtx struct {
-	wl     *wlPlain
-	pm     *openfgav1.AuthorizationModel
-	ref    *pgraph
-	labels []string
-	canon  *plainObs
+	withCycles bool // the graph has few enough cycles for GetCycles to be affordable
+	cc, acyc   bool // reference cycle classification (computed once)
+	reachOf    map[string]map[string]bool
+	wl         *wlPlain
+	pm         *openfgav1.AuthorizationModel
+	ref        *pgraph
+	labels     []string
+	canon      *plainObs
 }
 
 func newPlainCtx(wl *wlPlain) *plainCtx {
@@ -492,7 +555,15 @@ func newPlainCtx(wl *wlPlain) *plainCtx {
 		c.labels = sel
 	}
 	c.labels = append(c.labels, "nosuch", "union", "user:*x")
-	o := observePlain(c.pm, c.labels)
+	c.withCycles = !c.ref.manyCycles(300)
+	c.cc, c.acyc = c.ref.cycles()
+	c.reachOf = map[string]map[string]bool{}
+	for _, a := range c.labels {
+		if _, ok := c.ref.nodes[a]; ok {
+			c.reachOf[a] = c.ref.reach(a)
+		}
+	}
+	o := observePlain(c.pm, c.labels, c.withCycles)
 	c.canon = &o
 	return c
 }
@@ -513,7 +584,7 @@ func (c *plainCtx) check(cfg simrt.Config) ([]mismatch, simrt.Stats, string) {
 				}
 			}
 		}
-		o = observePlain(c.pm, c.labels)
+		o = observePlain(c.pm, c.labels, c.withCycles)
 	}})
 	st := simrt.End()
 	if o.panicMsg != "" {
@@ -572,10 +643,7 @@ func (c *plainCtx) check(cfg simrt.Config) ([]mismatch, simrt.Stats, string) {
 	}
 	for _, a := range c.labels {
 		_, aok := c.ref.nodes[a]
-		var reach map[string]bool
-		if aok {
-			reach = c.ref.reach(a)
-		}
+		reach := c.reachOf[a]
 		for _, b := range c.labels {
 			_, bok := c.ref.nodes[b]
 			got, answered := o.paths[a+" => "+b]
@@ -603,7 +671,7 @@ func (c *plainCtx) check(cfg simrt.Config) ([]mismatch, simrt.Stats, string) {
 		add("plain.lookup", "label lookup %q, expected %q", o.lookup, strings.Join(lk, " "))
 	}
 	// cycles
-	cc, acyclic := c.ref.cycles()
+	cc, acyclic := c.cc, c.acyc
 	if o.cycles == "" {
 		// not observable any more: skip
 	} else if cc && !strings.HasPrefix(o.cycles, "{true") {
